@@ -69,6 +69,7 @@ TCall ==
     /\ l <= Len(Log)
     /\ LET r == Log[l] IN
        /\ r.e = "call"
+       /\ Has(r, "obs")                           \* the read functions themselves completed (a stored row they cannot read back is a rejection)
        /\ LET res == RunAll(TableProg(r, st), st, <<>>) IN
           /\ (r.out = "ok") <=> res.ok
           /\ (r.out = "throw" => r.std)
@@ -90,7 +91,7 @@ TCall ==
 
 TReset ==
     /\ l <= Len(Log)
-    /\ LET r == Log[l] IN r.e = "reset" /\ r.out = "ok" /\ RawStore(r.raw) = EmptyStore /\ ReadsOK(r, EmptyStore, <<>>, <<>>) /\ NoWrite(r)
+    /\ LET r == Log[l] IN r.e = "reset" /\ r.out = "ok" /\ Has(r, "obs") /\ RawStore(r.raw) = EmptyStore /\ ReadsOK(r, EmptyStore, <<>>, <<>>) /\ NoWrite(r)
     /\ st' = EmptyStore /\ xp' = <<>> /\ lt' = <<>> /\ l' = l + 1 /\ hist' = hist
 
 TInit == l = 1 /\ st = EmptyStore /\ hist = <<>> /\ xp = <<>> /\ lt = <<>>
